@@ -143,6 +143,15 @@ var c17IdMsg = regexp.MustCompile(`invalid crop parameter name: L(\d+)`)
 
 func c17Line(k int, long bool) string {
 	s := fmt.Sprintf("project=x plotNr=1 CropFile=f c_L%d=1", k)
+	// a batch line is a set of key=value arguments: other key first, indented by a blank or a tab
+	switch k % 5 {
+	case 1:
+		s = fmt.Sprintf("plotNr=1 c_L%d=1 project=x CropFile=f", k)
+	case 2:
+		s = " " + s
+	case 3:
+		s = "\t" + s
+	}
 	if long {
 		s += " fcode=abcdefgh"
 	}
